@@ -232,7 +232,9 @@ class Program:
             name = ".".join(parts)
             src = p.read_text()
             try:
-                tree = ast.parse(src, filename=str(p))
+                from .desugar import desugar
+
+                tree = desugar(ast.parse(src, filename=str(p)))
             except SyntaxError as err:
                 raise AnalysisError(f"cannot parse {p}: {err}") from err
             m = Module(
@@ -682,6 +684,60 @@ class Unfoldable(Exception):
     pass
 
 
+class Rec(tuple):
+    """Folded value of a NamedTuple / dataclass constructed from constants: a tuple of the field values in
+    declaration order that also answers attribute access."""
+
+    _names: tuple = ()
+    _cls: str = ""
+
+    def __new__(cls, names, values, clsname=""):
+        self = super().__new__(cls, values)
+        self._names = tuple(names)
+        self._cls = clsname
+        return self
+
+    def field(self, name: str):
+        return self[self._names.index(name)]
+
+
+class Sentinel:
+    """Folded value of a module-level `object()`: equal only to itself."""
+
+    def __init__(self, name: str) -> None:
+        self.name = name
+
+    def __repr__(self) -> str:
+        return f"<sentinel {self.name}>"
+
+    def __eq__(self, other) -> bool:
+        return isinstance(other, Sentinel) and other.name == self.name
+
+    def __hash__(self) -> int:
+        return hash(("sentinel", self.name))
+
+
+def record_fields_of(c: "ClassInfo") -> list[tuple[str, ast.expr | None]] | None:
+    """(field, default expr) in constructor order for a dataclass / NamedTuple class without its own __init__."""
+    if c.find_method("__init__") is not None:
+        return None
+    is_dc = any(ast.unparse(d).split("(")[0].split(".")[-1] == "dataclass" for d in c.node.decorator_list)
+    is_nt = any(ast.unparse(b).split(".")[-1] == "NamedTuple" for k in c.repo_mro() for b in k.node.bases)
+    if not (is_dc or is_nt):
+        return None
+    out: list[tuple[str, ast.expr | None]] = []
+    for k in reversed(c.repo_mro()):
+        for st in k.node.body:
+            if isinstance(st, ast.AnnAssign) and isinstance(st.target, ast.Name) and "ClassVar" not in ast.unparse(st.annotation):
+                dflt = st.value
+                if isinstance(dflt, ast.Call) and ast.unparse(dflt.func).split(".")[-1] == "field":
+                    if any(kw.arg == "init" and isinstance(kw.value, ast.Constant) and kw.value.value is False for kw in dflt.keywords):
+                        continue
+                    dflt = next((kw.value for kw in dflt.keywords if kw.arg == "default"), None)
+                out = [x for x in out if x[0] != st.target.id] + [(st.target.id, dflt)]
+    return out
+
+
 class Folder:
     """Static evaluation of module/class level constant expressions."""
 
@@ -751,6 +807,13 @@ class Folder:
                 dd = p.resolve_name(d.obj, expr.attr)
                 if dd is not None and dd.kind == "const":
                     return self.fold(dd.module, dd.obj)
+            # field of a record constant (`_CONSTANTS.timeout`)
+            try:
+                base = self.fold(m, expr.value, local)
+            except Unfoldable:
+                base = None
+            if isinstance(base, Rec) and expr.attr in base._names:
+                return base.field(expr.attr)
             raise Unfoldable(f"attribute {ast.unparse(expr)}")
         if isinstance(expr, (ast.Tuple, ast.List)):
             vals = [self.fold(m, e, local) for e in expr.elts]
@@ -786,6 +849,24 @@ class Folder:
                 return len(self.fold(m, expr.args[0], local))
             if isinstance(fn, ast.Name) and fn.id == "int" and len(expr.args) == 1:
                 return int(self._plain(self.fold(m, expr.args[0], local)))
+            if isinstance(fn, ast.Name) and fn.id == "object" and not expr.args and not expr.keywords:
+                return Sentinel(f"{m.name}:{expr.lineno}")
+            dcls = p.resolve_expr(m, fn) if isinstance(fn, (ast.Name, ast.Attribute)) else None
+            if dcls is not None and dcls.kind == "class":
+                flds = record_fields_of(dcls.obj)
+                if flds is not None and not any(isinstance(a, ast.Starred) for a in expr.args) and all(k.arg for k in expr.keywords) and len(expr.args) <= len(flds):
+                    given = {n: a for (n, _d), a in zip(flds, expr.args)}
+                    for k in expr.keywords:
+                        given[k.arg] = k.value
+                    vals = []
+                    for n, dflt in flds:
+                        if n in given:
+                            vals.append(self.fold(m, given[n], local))
+                        elif dflt is not None:
+                            vals.append(self.fold(dcls.obj.module, dflt))
+                        else:
+                            raise Unfoldable(f"field {n} of {dcls.obj.name} not given")
+                    return Rec([n for n, _ in flds], vals, dcls.obj.fq)
             if isinstance(fn, ast.Name) and fn.id == "range" and 1 <= len(expr.args) <= 3 and not expr.keywords:
                 vals = [self._plain(self.fold(m, a, local)) for a in expr.args]
                 if all(isinstance(v, int) and not isinstance(v, bool) for v in vals):
